@@ -352,6 +352,80 @@ def boundary_cases(defaults):
     return out
 
 
+def _short_valid_chunk(yy):
+    from zorg.shared import dates as zdt
+
+    out = []
+    for mm in range(100):
+        for dd in range(100):
+            s = "%02d%02d%02d" % (yy, mm, dd)
+            if zdt.is_short_date_spec(s):
+                out.append(s)
+    return out
+
+
+def calendar_exhaustive(res, proof):
+    """the calendar core shared by C01 / C04 / C07 / C08, exhaustively: every six-digit string through `is_short_date_spec`
+    (implementation) vs the real calendar (datetime.date, 20YY) vs Model/Date.lean; long dates on boundary years"""
+    import multiprocessing as mp
+
+    from zorg.shared import dates as zdt
+
+    with mp.get_context("fork").Pool(14) as pool:
+        impl = [s for chunk in pool.map(_short_valid_chunk, range(100)) for s in chunk]
+    real = []
+    for yy in range(100):
+        for mm in range(1, 13):
+            for dd in range(1, 32):
+                try:
+                    dt.date(2000 + yy, mm, dd)
+                    real.append("%02d%02d%02d" % (yy, mm, dd))
+                except ValueError:
+                    pass
+    res.evaluations += 1000000
+    res.count("six_digit_strings", 1000000)
+    if impl != real:
+        diff = sorted(set(impl) ^ set(real))
+        res.failures.append(C.Failure(f"is_short_date_spec disagrees with the calendar on {len(diff)} six-digit strings, e.g. {diff[:5]} (accepted by the implementation: {[d in set(impl) for d in diff[:5]]})",
+                                      {"kind": "calendar", "strings": diff[:20]}))
+    for s in real[:: 997] + ["000229", "240229", "991231"]:
+        got = zdt.from_short_date_spec(s)
+        if (got.year, got.month, got.day) != (2000 + int(s[:2]), int(s[2:4]), int(s[4:6])):
+            res.failures.append(C.Failure(f"from_short_date_spec({s!r}) = {got}, a YYMMDD date means 20YY-MM-DD", {"kind": "calendar", "string": s}))
+            break
+    # long dates: `is_long_date_spec` is the SHAPE test (callers ignore impossible dates); conversion succeeds iff the day exists
+    longs = ["%04d-%02d-%02d" % (y, m, d) for y in (1, 1999, 2000, 2023, 2024, 2100, 2400, 9999) for m in range(0, 14) for d in range(0, 33)]
+    impl_long = []
+    for x in longs:
+        if not zdt.is_long_date_spec(x):
+            res.failures.append(C.Failure(f"is_long_date_spec({x!r}) is False for a YYYY-MM-DD shaped word", {"kind": "calendar", "string": x}))
+            break
+        try:
+            got = zdt.from_date_spec(x)
+            impl_long.append((got.year, got.month, got.day) == (int(x[:4]), int(x[5:7]), int(x[8:])))
+        except ValueError:
+            impl_long.append(False)
+    real_long = []
+    for x in longs:
+        try:
+            dt.date(int(x[:4]), int(x[5:7]), int(x[8:]))
+            real_long.append(True)
+        except ValueError:
+            real_long.append(False)
+    res.evaluations += len(longs)
+    if len(impl_long) == len(longs) and impl_long != real_long:
+        k = next(i for i in range(len(longs)) if impl_long[i] != real_long[i])
+        res.failures.append(C.Failure(f"from_date_spec({longs[k]!r}) {'converts' if impl_long[k] else 'fails'}, the calendar says the day {'exists' if real_long[k] else 'does not exist'}", {"kind": "calendar", "string": longs[k]}))
+    if proof.driver_ok:
+        m1, m2 = C.model_batch([{"op": "date.validShortAll"}, {"op": "date.validLong", "dates": longs}])
+        if m1.get("valid") != impl:
+            diff = sorted(set(m1.get("valid", [])) ^ set(impl))
+            res.disagreements.append(C.Failure(f"Date.parseShort vs is_short_date_spec differ on {diff[:5]}", {"strings": diff[:20]}, "correspondence"))
+        if m2.get("valid") != impl_long:
+            k = next((i for i in range(len(longs)) if m2.get("valid", [None] * len(longs))[i] != impl_long[i]), 0)
+            res.disagreements.append(C.Failure(f"Date.parseLong vs is_long_date_spec differ on {longs[k]!r}", {"string": longs[k]}, "correspondence"))
+
+
 def body(ctx: C.Ctx, proof: C.ProofStatus) -> C.Result:
     import lexcheck as LC
     from zorg.domain.models import Query
@@ -408,6 +482,7 @@ def body(ctx: C.Ctx, proof: C.ProofStatus) -> C.Result:
         res.notes.append("_process_query not importable; normalisation not compared")
     # token streams of the generated queries
     LC.check_texts("query", [c["text"] for c in cases[: ctx.scale(1500, 20000)]], res, "queries", use_model=proof.driver_ok)
+    calendar_exhaustive(res, proof)
     return res
 
 
@@ -427,6 +502,8 @@ RULE = (
     "query structures generated from the abstract syntax (every select form, filter trees to depth 5 over every atom kind, both clause "
     "orders, date forms under a frozen clock on 18 boundary days) rendered to text; boundary enumerations (64 priority spellings, all 63 "
     "kind subsets, all select fields x count, 16 relative offsets x 18 days); build_zorg_query vs expected structure vs Lean model; "
+    "plus the calendar core exhaustively: all 10^6 six-digit strings through is_short_date_spec vs the real calendar (20YY) vs Date.parseShort, "
+    "long dates of 8 boundary years x months 0-13 x days 0-32 through from_date_spec vs calendar vs Date.parseLong; "
     "non-trivial = distinct query text with a WHERE clause"
 )
 ASSUME = ["ANTLR's parse of a well-formed query equals the recursive-descent reading of the grammar (validated by correspondence)",
